@@ -13,6 +13,7 @@ mod c12;
 mod c17;
 mod c18;
 mod c19;
+mod c20;
 mod decode;
 mod explore;
 mod fsmon;
@@ -68,6 +69,7 @@ fn main() {
                 "C17" => c17::check(&tier),
                 "C18" => c18::check(&tier),
                 "C19" => c19::check(&tier),
+                "C20" => c20::check(&tier),
                 _ => {
                     eprintln!("no such check {id}");
                     2
